@@ -7,6 +7,8 @@
 #![allow(static_mut_refs)]
 #![allow(clippy::missing_safety_doc)]
 
+#[macro_use]
+mod misc;
 mod stdworld;
 mod track;
 
@@ -1208,7 +1210,9 @@ fn exec(w: &mut World, op: &Op, in_dtor_of: Option<&Node>, dry: bool) -> Option<
             go!();
             let mine = misc_digest(w);
             let theirs = w.sworld.misc_digest();
-            Some(if !w.std_on || mine == theirs { "same" } else { "differ" }.into())
+            let mine_t = lib(|| misc_types_digest!(Rc, Weak));
+            let theirs_t = stdworld::types_digest();
+            Some(if !w.std_on || (mine == theirs && mine_t == theirs_t) { "same" } else { "differ" }.into())
         }
         "DropDetached" => {
             if !made(w, a) || w.detached[a as usize].is_none() {
